@@ -295,10 +295,13 @@ Lemma peers_of_elem host ls l :
   l ∈ peers_of host ls <-> l ∈ ls /\ l <> node_free /\ l <> host.
 Proof.
   unfold peers_of, nodup_N. rewrite merge_sort_Permutation, elem_of_remove_dups, elem_of_list_filter.
-  destruct (l =? node_free) eqn:E1; destruct (l =? host) eqn:E2; cbn [negb andb]; split.
-  all: try apply N.eqb_eq in E1; try apply N.eqb_eq in E2; try apply N.eqb_neq in E1; try apply N.eqb_neq in E2.
-  all: try (intros [H _]; simpl in H; contradiction).
-  all: try (intros (_ & H1 & H2); congruence).
+  destruct (N.eqb_spec l node_free) as [E1|E1]; destruct (N.eqb_spec l host) as [E2|E2]; cbn [negb andb]; split.
+  - intros [H _]. simpl in H. contradiction.
+  - intros (_ & H1 & H2). congruence.
+  - intros [H _]. simpl in H. contradiction.
+  - intros (_ & H1 & H2). congruence.
+  - intros [H _]. simpl in H. contradiction.
+  - intros (_ & H1 & H2). congruence.
   - intros [_ H]. auto.
   - intros (H & _ & _). split; [exact I|exact H].
 Qed.
@@ -330,7 +333,7 @@ Proof.
     - intros n k e Hk. destruct (cons_eng _ C1 n k e Hk) as (c & Hc & Hl & He). exists c.
       split; [|auto]. cbn [s2 upd_tab s_tab]. rewrite tab_delete_lookup, bool_decide_false; [exact Hc|].
       intros Hin. pose proof (Hfree k Hin) as Hf.
-      assert (Hk' : is_Some (eng_of s1 n !! k)) by (rewrite Hk; eauto).
+      assert (Hk' : is_Some (eng_of s1 n !! k)) by (exists e; exact Hk).
       destruct (Inv_engine_lease s1 n k I1 Hk') as [Hl' Hnode].
       destruct (inv_nodes _ I1 n Hnode). lia. }
   assert (S2 : shrinks s1 s2).
@@ -360,4 +363,303 @@ Lemma delete_by_name_cons host s names s' out :
 Proof.
   intros I C Hn. unfold delete_by_name. destruct (lookup_names _ _) as [ex amb]. intros H.
   apply (delete_keys_cons _ _ _ _ _ I C Hn H).
+Qed.
+
+(* ---- rename paths (each key listed once) *)
+Fixpoint look_name (k : N) (kn : list (N * string)) : option string :=
+  match kn with [] => None | (k', n) :: r => if k' =? k then Some n else look_name k r end.
+
+Definition rename_e (n : string) (c : echan) : echan := EChan n (e_dt c) (e_isidx c) (e_index c) (e_virt c).
+
+Lemma look_name_None k kn : look_name k kn = None <-> k ∉ (fst <$> kn).
+Proof.
+  induction kn as [|[k' n] kn IH]; cbn [look_name fmap list_fmap fst].
+  - split; [intros _ H; inversion H|reflexivity].
+  - destruct (N.eqb_spec k' k) as [->|Hne].
+    + split; [discriminate|]. intros H. exfalso. apply H. left.
+    + rewrite IH. split.
+      * intros H H'. apply elem_of_cons in H' as [?|?]; [congruence|tauto].
+      * intros H H'. apply H. right. exact H'.
+Qed.
+
+Lemma ts_rename_ok : forall kn e e', NoDup (fst <$> kn) -> ts_rename e kn = (e', EOk) ->
+  (forall k, k ∈ (fst <$> kn) -> is_Some (e !! k)) /\
+  (forall k, e' !! k = match look_name k kn with Some n => rename_e n <$> (e !! k) | None => e !! k end).
+Proof.
+  induction kn as [|[k n] kn IH]; intros e e' Hnd; cbn [ts_rename].
+  - intros [= <-]. split; [intros k H; inversion H|reflexivity].
+  - destruct (e !! k) as [c|] eqn:Ek; [|discriminate]. intros H.
+    cbn [fmap list_fmap fst] in Hnd. apply NoDup_cons in Hnd as [Hk Hnd].
+    destruct (IH _ _ Hnd H) as [A B]. split.
+    + intros x Hx. apply elem_of_cons in Hx as [->|Hx]; [eauto|].
+      specialize (A x Hx). destruct (decide (x = k)) as [->|Hne]; [eauto|].
+      rewrite lookup_insert_ne in A by congruence. exact A.
+    + intros x. rewrite B. cbn [look_name]. destruct (N.eqb_spec k x) as [->|Hne].
+      * apply look_name_None in Hk. rewrite Hk, lookup_insert, Ek. reflexivity.
+      * rewrite lookup_insert_ne by congruence. reflexivity.
+Qed.
+
+Lemma index_where_look : forall (keys : list N) (names : list string) k,
+  length keys = length names ->
+  match index_where (N.eqb k) keys with Some i => names !! i | None => None end = look_name k (zip keys names).
+Proof.
+  induction keys as [|x keys IH]; intros names k Hlen; [reflexivity|].
+  destruct names as [|n names]; [discriminate|]. cbn [index_where zip zip_with look_name].
+  rewrite (N.eqb_sym k x). destruct (x =? k); [reflexivity|].
+  specialize (IH names k). cbn [length] in Hlen. injection Hlen as Hlen. rewrite <- (IH Hlen).
+  destruct (index_where (N.eqb k) keys); reflexivity.
+Qed.
+
+Lemma tab_rename_ok t keys names t' :
+  length keys = length names -> tab_rename t keys names = (t', EOk) ->
+  (forall k, k ∈ keys -> exists c, t !! k = Some c /\ c_int c = false) /\
+  (forall k, t' !! k = match look_name k (zip keys names) with
+                       | Some n => (fun c => set_name c n) <$> (t !! k) | None => t !! k end).
+Proof.
+  intros Hlen. unfold tab_rename.
+  destruct (forallb (fun k => bool_decide (is_Some (t !! k))) keys) eqn:Eall; cbn [negb]; [|discriminate].
+  destruct (any_internal t keys) eqn:Eint; [discriminate|]. intros [= <-].
+  assert (Hex : forall k, k ∈ keys -> exists c, t !! k = Some c /\ c_int c = false).
+  { intros k Hk. rewrite forallb_forall in Eall. specialize (Eall k (proj1 (elem_of_list_In _ _) Hk)).
+    apply bool_decide_eq_true in Eall as [c Hc]. exists c. split; [exact Hc|].
+    destruct (c_int c) eqn:Ei; [|reflexivity]. exfalso.
+    assert (any_internal t keys = true); [|congruence]. unfold any_internal. apply existsb_exists.
+    exists k. split; [apply elem_of_list_In, Hk|]. rewrite Hc. exact Ei. }
+  split; [exact Hex|].
+  assert (G : forall l (t0 : table) k,
+    (foldl (fun t' k => match t !! k, index_where (N.eqb k) keys with
+                        | Some c, Some i => <[k := set_name c (default "" (names !! i))]> t'
+                        | _, _ => t' end) t0 l) !! k =
+    if bool_decide (k ∈ l) then
+      match t !! k, index_where (N.eqb k) keys with
+      | Some c, Some i => Some (set_name c (default "" (names !! i)))
+      | _, _ => t0 !! k end
+    else t0 !! k).
+  { induction l as [|x l IHl]; intros t0 k; cbn [foldl].
+    - rewrite bool_decide_false; [reflexivity|]. intros H; inversion H.
+    - rewrite IHl. destruct (decide (k = x)) as [->|Hne].
+      + rewrite (bool_decide_true (x ∈ x :: l)) by left.
+        destruct (t !! x) as [c|]; [|destruct (bool_decide _); reflexivity].
+        destruct (index_where (N.eqb x) keys) as [i|]; [|destruct (bool_decide _); reflexivity].
+        rewrite lookup_insert. destruct (bool_decide _); reflexivity.
+      + rewrite (bool_decide_ext (k ∈ l) (k ∈ x :: l)).
+        * destruct (bool_decide (k ∈ x :: l)).
+          -- destruct (t !! k); [|destruct (t !! x), (index_where (N.eqb x) keys); rewrite ?lookup_insert_ne by congruence; reflexivity].
+             destruct (index_where (N.eqb k) keys); [reflexivity|].
+             destruct (t !! x), (index_where (N.eqb x) keys); rewrite ?lookup_insert_ne by congruence; reflexivity.
+          -- destruct (t !! x), (index_where (N.eqb x) keys); rewrite ?lookup_insert_ne by congruence; reflexivity.
+        * split; [intros H; right; exact H|]. intros H. apply elem_of_cons in H as [?|?]; [congruence|assumption]. }
+  intros k. rewrite G. rewrite <- (index_where_look keys names k Hlen).
+  destruct (decide (k ∈ keys)) as [Hin|Hnin].
+  - rewrite bool_decide_true by exact Hin. destruct (Hex k Hin) as (c & Hc & _). rewrite Hc.
+    destruct (index_where (N.eqb k) keys) as [i|] eqn:Ei.
+    + pose proof (index_where_lt _ _ _ Ei) as Hlt. rewrite Hlen in Hlt.
+      destruct (lookup_lt_is_Some_2 names i Hlt) as [n Hn]. rewrite Hn. reflexivity.
+    + exfalso. clear -Hin Ei. induction keys as [|x keys IH]; [inversion Hin|].
+      cbn [index_where] in Ei. destruct (N.eqb_spec k x) as [->|Hne]; [discriminate|].
+      destruct (index_where (N.eqb k) keys); [discriminate|]. apply IH; [|reflexivity].
+      apply elem_of_cons in Hin as [?|?]; [congruence|assumption].
+  - rewrite bool_decide_false by exact Hnin.
+    destruct (index_where (N.eqb k) keys) as [i|] eqn:Ei; [|reflexivity].
+    exfalso. apply Hnin. apply index_where_Some in Ei as (x & Hx & He). apply N.eqb_eq in He. subst x.
+    eapply elem_of_list_lookup_2; eassumption.
+Qed.
+
+Lemma stored_set_name c n : stored (set_name c n) = rename_e n (stored c).
+Proof. destruct c. reflexivity. Qed.
+
+Lemma fst_zip_eq {A B} : forall (l : list A) (k : list B), length l = length k -> fst <$> zip l k = l.
+Proof.
+  induction l as [|x l IH]; intros [|y k] H; try discriminate; [reflexivity|].
+  cbn. f_equal. apply IH. cbn in H. lia.
+Qed.
+
+Lemma rename_gateway_cons host s keys names s' :
+  Inv s -> Cons s -> is_Some (s_eng s !! host) -> NoDup keys -> length keys = length names ->
+  (forall k, k ∈ keys -> leaseholder k = host) ->
+  rename_gateway host s keys names = (s', EOk) -> Cons s'.
+Proof.
+  intros I C Hn Hnd Hlen Hkeys. unfold rename_gateway.
+  destruct (tab_rename (s_tab s) keys names) as [t' er1] eqn:Et.
+  destruct (negb (is_ok er1)) eqn:Eo; [intros [= _ ->]; discriminate|].
+  apply negb_false_iff in Eo. unfold is_ok in Eo. apply bool_decide_eq_true in Eo. subst er1.
+  destruct (ts_rename _ (zip keys names)) as [e' er2] eqn:Er. intros [= <- ->].
+  destruct (tab_rename_ok _ _ _ _ Hlen Et) as [Hex Ht'].
+  assert (Hnd' : NoDup (fst <$> zip keys names)) by (rewrite fst_zip_eq by exact Hlen; exact Hnd).
+  destruct (ts_rename_ok _ _ _ Hnd' Er) as [_ He'].
+  change (eng_of (upd_tab s t') host) with (eng_of s host) in He'.
+  assert (Hlook : forall k, look_name k (zip keys names) <> None -> k ∈ keys).
+  { intros k H. destruct (decide (k ∈ keys)) as [?|Hnin]; [assumption|]. exfalso. apply H.
+    apply look_name_None. rewrite fst_zip_eq by exact Hlen. exact Hnin. }
+  assert (Heng : forall n k, eng_of (upd_eng (upd_tab s t') host e') n !! k =
+                 if decide (n = host) then e' !! k else eng_of s n !! k).
+  { intros n k. rewrite eng_of_upd_eng. destruct (decide (n = host)); reflexivity. }
+  constructor.
+  - intros k c' Hk Hl. cbn [upd_eng upd_tab s_tab] in Hk. rewrite Ht' in Hk. rewrite Heng.
+    destruct (look_name k (zip keys names)) as [nm|] eqn:El.
+    + destruct (s_tab s !! k) as [c|] eqn:Ec; [|discriminate]. cbn in Hk. injection Hk as <-.
+      assert (Hin : k ∈ keys) by (apply Hlook; congruence).
+      assert (Hlease : c_lease c = host) by (rewrite <- (Inv_row_lease s k c I Ec); apply Hkeys, Hin).
+      replace (c_lease (set_name c nm)) with (c_lease c) by (destruct c; reflexivity).
+      rewrite Hlease. destruct (decide (host = host)); [|congruence].
+      rewrite He', El.
+      assert (Hlf : c_lease c <> node_free) by (destruct c; exact Hl).
+      pose proof (cons_tab _ C k c Ec Hlf) as Hs. rewrite Hlease in Hs. rewrite Hs.
+      cbn. rewrite stored_set_name. reflexivity.
+    + destruct (decide (c_lease c' = host)) as [Eh|Hne].
+      * rewrite He', El. rewrite <- Eh. apply (cons_tab _ C k c' Hk Hl).
+      * apply (cons_tab _ C k c' Hk Hl).
+  - intros n k e0 Hk. rewrite Heng in Hk. cbn [upd_eng upd_tab s_tab]. rewrite Ht'.
+    destruct (decide (n = host)) as [->|Hne].
+    + rewrite He' in Hk. destruct (look_name k (zip keys names)) as [nm|] eqn:El.
+      * destruct (eng_of s host !! k) as [x|] eqn:Ex; [|discriminate].
+        cbn in Hk. injection Hk as <-.
+        destruct (cons_eng _ C host k x Ex) as (c & Hc & Hl & ->). exists (set_name c nm).
+        rewrite Hc. cbn. split; [reflexivity|]. split; [destruct c; exact Hl|]. symmetry. apply stored_set_name.
+      * apply (cons_eng _ C host k e0 Hk).
+    + destruct (cons_eng _ C n k e0 Hk) as (c & Hc & Hl & He). exists c.
+      destruct (look_name k (zip keys names)) as [nm|] eqn:El; [|auto]. exfalso.
+      assert (Hin : k ∈ keys) by (apply Hlook; congruence).
+      apply Hne. rewrite <- (Hkeys k Hin), <- Hl. symmetry. apply (Inv_row_lease s k c I Hc).
+Qed.
+
+(* renaming free channels touches metadata only *)
+Lemma rename_free_cons s free s' :
+  Inv s -> Cons s -> length (fst <$> free) = length (snd <$> free) ->
+  (forall k, k ∈ (fst <$> free) -> leaseholder k = node_free) ->
+  rename_free s free = (s', EOk) -> Cons s'.
+Proof.
+  intros I C Hlen Hfree. unfold rename_free. destruct free as [|f0 fr]; [intros [= <-]; exact C|].
+  set (free := f0 :: fr) in *.
+  destruct (tab_rename (s_tab s) (fst <$> free) (snd <$> free)) as [t' er] eqn:Et.
+  destruct (is_ok er) eqn:Eo; intros [= <- ->]; [|discriminate].
+  destruct (tab_rename_ok _ _ _ _ Hlen Et) as [Hex Ht'].
+  assert (Hlook : forall k, look_name k (zip (fst <$> free) (snd <$> free)) <> None -> k ∈ (fst <$> free)).
+  { intros k H. destruct (decide (k ∈ (fst <$> free))) as [?|Hnin]; [assumption|]. exfalso. apply H.
+    apply look_name_None. rewrite fst_zip_eq by exact Hlen. exact Hnin. }
+  constructor.
+  - intros k c' Hk Hl. cbn [upd_tab s_tab] in Hk. rewrite Ht' in Hk.
+    destruct (look_name k _) as [nm|] eqn:El.
+    + exfalso. destruct (s_tab s !! k) as [c|] eqn:Ec; [|discriminate]. cbn in Hk. injection Hk as <-.
+      assert (Hin : k ∈ (fst <$> free)) by (apply Hlook; congruence).
+      apply Hl. replace (c_lease (set_name c nm)) with (c_lease c) by (destruct c; reflexivity).
+      rewrite <- (Inv_row_lease s k c I Ec). apply Hfree, Hin.
+    + apply (cons_tab _ C k c' Hk Hl).
+  - intros n k e0 Hk. destruct (cons_eng _ C n k e0 Hk) as (c & Hc & Hl & He). exists c.
+    cbn [upd_tab s_tab]. rewrite Ht'. destruct (look_name k _) as [nm|] eqn:El; [|auto]. exfalso.
+    assert (Hin : k ∈ (fst <$> free)) by (apply Hlook; congruence).
+    assert (Hk' : is_Some (eng_of s n !! k)) by (exists e0; exact Hk).
+    destruct (Inv_engine_lease s n k I Hk') as [Hl' Hnode]. destruct (inv_nodes _ I n Hnode).
+    pose proof (Hfree k Hin). lia.
+Qed.
+
+Lemma NoDup_fst_filter {A} (p : N * A -> bool) (kn : list (N * A)) :
+  NoDup (fst <$> kn) -> NoDup (fst <$> filter (fun x => p x) kn).
+Proof.
+  induction kn as [|[k a] kn IH]; intros H; [constructor|].
+  cbn [fmap list_fmap fst] in H. apply NoDup_cons in H as [Hk H]. rewrite filter_cons.
+  destruct (decide (Is_true (p (k, a)))); [|apply IH, H].
+  cbn [fmap list_fmap fst]. apply NoDup_cons. split; [|apply IH, H].
+  intros Hin. apply Hk. apply elem_of_list_fmap in Hin as (x & -> & Hx).
+  apply elem_of_list_filter in Hx as [_ Hx]. apply elem_of_list_fmap. eauto.
+Qed.
+Lemma fst_filter_lease {A} (l : N) (kn : list (N * A)) k :
+  k ∈ (fst <$> filter (fun x => leaseholder x.1 =? l) kn) -> leaseholder k = l.
+Proof.
+  intros H. apply elem_of_list_fmap in H as ([k' a] & -> & H). apply elem_of_list_filter in H as [H _].
+  cbn [fst] in H |- *. apply N.eqb_eq. apply Is_true_eq_true in H. exact H.
+Qed.
+Lemma fst_snd_length {A B} (l : list (A * B)) : length (fst <$> l) = length (snd <$> l).
+Proof. rewrite !fmap_length. reflexivity. Qed.
+
+Lemma is_ok_false er : negb (is_ok er) = false -> er = EOk.
+Proof. intros H. apply negb_false_iff in H. unfold is_ok in H. apply bool_decide_eq_true in H. exact H. Qed.
+
+Lemma rename_remote_cons validate p s kn s' :
+  Inv s -> Cons s -> NoDup (fst <$> kn) ->
+  rename_remote validate p s kn = (s', EOk) -> Cons s'.
+Proof.
+  intros I C Hnd. unfold rename_remote. destruct (is_node s p) eqn:En; cbn [negb]; [|discriminate].
+  apply is_node_true in En.
+  destruct (rename_checks validate s _ _) as [er0 amb].
+  destruct (negb (is_ok er0)) eqn:Eo0; [intros [= _ ->]; discriminate|].
+  set (s0 := upd_amb s amb).
+  assert (I0 : Inv s0) by (eapply Inv_ext; [exact I|apply ext_upd_amb]).
+  assert (C0 : Cons s0) by (apply Cons_upd_amb, C).
+  set (free := filter (fun x => leaseholder x.1 =? node_free) kn).
+  set (own := filter (fun x => leaseholder x.1 =? p) kn).
+  destruct (if p =? node_boot then rename_free s0 free else _) as [s1 er1] eqn:E1.
+  destruct (negb (is_ok er1)) eqn:Eo1; [intros [= _ ->]; discriminate|]. apply is_ok_false in Eo1. subst er1.
+  assert (X1 : ext s0 s1).
+  { destruct (p =? node_boot); [eapply rename_free_ext; exact E1|].
+    destruct free; [injection E1 as <-; apply ext_refl|discriminate]. }
+  assert (C1 : Cons s1).
+  { destruct (p =? node_boot).
+    - eapply rename_free_cons; [exact I0|exact C0|apply fst_snd_length| |exact E1].
+      intros k Hk. eapply fst_filter_lease. exact Hk.
+    - destruct free; [injection E1 as <-; exact C0|discriminate]. }
+  destruct own as [|o0 own'] eqn:Eown; [intros [= <-]; exact C1|].
+  destruct (rename_gateway p s1 _ _) as [s2 er2] eqn:E2. intros [= <- ->]. rewrite rollback_ok.
+  eapply rename_gateway_cons; [eapply Inv_ext; eassumption|exact C1| | | | |exact E2].
+  - apply (ext_nodes _ _ X1). exact En.
+  - rewrite <- Eown. apply NoDup_fst_filter, Hnd.
+  - apply fst_snd_length.
+  - intros k Hk. rewrite <- Eown in Hk. eapply fst_filter_lease. exact Hk.
+Qed.
+
+Lemma rename_peers_cons validate : forall peers s kn s',
+  Inv s -> Cons s -> NoDup (fst <$> kn) ->
+  rename_peers validate s peers kn = (s', EOk) -> Cons s' /\ ext s s'.
+Proof.
+  induction peers as [|p peers IH]; intros s kn s' I C Hnd; cbn [rename_peers].
+  - intros [= <-]. split; [exact C|apply ext_refl].
+  - destruct (rename_remote validate p s _) as [s1 er1] eqn:E1.
+    destruct (is_ok er1) eqn:Eo; [|intros [= _ ->]; discriminate].
+    unfold is_ok in Eo. apply bool_decide_eq_true in Eo. subst er1. intros H.
+    pose proof (rename_remote_ext _ _ _ _ _ _ E1) as X1.
+    assert (C1 : Cons s1) by (eapply rename_remote_cons; [exact I|exact C|apply NoDup_fst_filter, Hnd|exact E1]).
+    destruct (IH _ _ _ (Inv_ext _ _ I X1) C1 Hnd H) as [C2 X2].
+    split; [exact C2|eapply ext_trans; eassumption].
+Qed.
+
+Lemma rename_keys_cons validate host s keys names s' out :
+  Inv s -> Cons s -> is_Some (s_eng s !! host) -> NoDup keys ->
+  rename_keys true validate host s keys names = (s', (EOk, out)) -> Cons s'.
+Proof.
+  intros I C Hn Hnd. unfold rename_keys.
+  destruct (rename_checks validate s keys names) as [er0 amb] eqn:Ech.
+  destruct (negb (is_ok er0)) eqn:Eo0; [intros [= _ -> _]; discriminate|]. apply is_ok_false in Eo0. subst er0.
+  assert (Hlen : length keys = length names).
+  { unfold rename_checks in Ech. destruct (length keys =? length names)%nat eqn:El; cbn [negb] in Ech; [|discriminate].
+    apply Nat.eqb_eq, El. }
+  set (s0 := upd_amb s amb).
+  assert (I0 : Inv s0) by (eapply Inv_ext; [exact I|apply ext_upd_amb]).
+  assert (C0 : Cons s0) by (apply Cons_upd_amb, C).
+  set (kn := zip keys names).
+  assert (Hndk : NoDup (fst <$> kn)) by (unfold kn; rewrite fst_zip_eq by exact Hlen; exact Hnd).
+  destruct (rename_peers validate s0 _ kn) as [s1 er1] eqn:E1.
+  destruct (negb (is_ok er1)) eqn:Eo1; [intros [= _ -> _]; discriminate|]. apply is_ok_false in Eo1. subst er1.
+  destruct (rename_peers_cons _ _ _ _ _ I0 C0 Hndk E1) as [C1 X1].
+  set (s1' := upd_amb s1 _).
+  assert (I1 : Inv s1') by (eapply Inv_ext; [eapply Inv_ext; [exact I0|exact X1]|apply ext_upd_amb]).
+  assert (C1' : Cons s1') by (apply Cons_upd_amb, C1).
+  set (free := filter (fun x => leaseholder x.1 =? node_free) kn).
+  destruct (match free with [] => _ | _ => _ end) as [s2 er2] eqn:E2.
+  destruct (negb (is_ok er2)) eqn:Eo2; [intros [= _ -> _]; discriminate|]. apply is_ok_false in Eo2. subst er2.
+  assert (X2 : ext s1' s2 /\ Cons s2).
+  { destruct free as [|f0 fr] eqn:Ef; [injection E2 as <-; split; [apply ext_refl|exact C1']|].
+    destruct (true && negb (host =? node_boot)).
+    - split; [eapply rename_remote_ext; exact E2|].
+      eapply rename_remote_cons; [exact I1|exact C1'| |exact E2]. rewrite <- Ef. apply NoDup_fst_filter, Hndk.
+    - split; [eapply rename_free_ext; exact E2|].
+      eapply rename_free_cons; [exact I1|exact C1'|apply fst_snd_length| |exact E2].
+      intros k Hk. rewrite <- Ef in Hk. eapply fst_filter_lease. exact Hk. }
+  destruct X2 as [X2 C2].
+  destruct (filter (fun x => leaseholder x.1 =? host) kn) as [|g0 gw] eqn:Eg; [intros [= <- _]; exact C2|].
+  destruct (rename_gateway host s2 _ _) as [s3 er3] eqn:E3. intros [= <- -> _].
+  eapply rename_gateway_cons; [eapply Inv_ext; eassumption|exact C2| | | | |exact E3].
+  - apply (ext_nodes _ _ X2). cbn. apply (ext_nodes _ _ X1). exact Hn.
+  - rewrite <- Eg. apply NoDup_fst_filter, Hndk.
+  - apply fst_snd_length.
+  - intros k Hk. rewrite <- Eg in Hk. eapply fst_filter_lease. exact Hk.
 Qed.
